@@ -399,10 +399,16 @@ def gen_array(r, dtype=None, n=None, specials=None):
     dtype = dtype or r.choice(FLOAT_DTYPES + FLOAT_DTYPES + INT_DTYPES)
     n = n or r.choice([2, 3, 4, 5, 7, 9, 12, 16, 25, 40])
     if dtype.startswith("float"):
-        kind = r.choice(["grid", "grid", "wide", "small", "dups"])
+        kind = r.choice(["grid", "grid", "wide", "small", "dups", "tight"])
         vals = []
+        # "tight": distinct values whose spread is tiny next to their magnitude (counts on a pedestal,
+        # values a few 1e-9 apart): still "at least two distinct finite values", so the limits must go
+        # to 0 and 1 — a closeness test standing in for `vmax != vmin` would swallow these
+        t_base, t_step = r.choice([(1000.0, 2.0 ** -12), (-30000.0, 2.0 ** -7), (0.0, 2.0 ** -30), (1.0, 2.0 ** -20)])
         for _ in range(n):
-            if kind == "grid":
+            if kind == "tight":
+                v = t_base + r.randint(0, 12) * t_step
+            elif kind == "grid":
                 v = r.randint(-400, 400) / 8.0
             elif kind == "wide":
                 v = r.choice([-1, 1]) * r.randint(1, 4096) * 2.0 ** r.randint(-12, 14)
